@@ -340,6 +340,14 @@ static inline void vp_glibcxx_assert_fail(void) { VP_CHECK(0, "libstdc++ contain
 static inline int vp_memcmp(char* a, char* b, uint64_t n) { return memcmp(a, b, n); }
 static inline uint64_t vp_strlen(char* a) { return strlen(a); }
 static inline int vp_strcmp(char* a, char* b) { return strcmp(a, b); }
+/* std::string::_M_create(size_type& capacity, size_type old_capacity): libstdc++ growth policy, fixed-size block (cf. VP_DYN_ALLOC_MAX) */
+static inline char* vp_string_create(char* self, char* cap, uint64_t old) {
+  (void)self; uint64_t c = *(uint64_t*)cap;
+  if (c > old && c < 2 * old) c = 2 * old;
+  __CPROVER_assume(c + 1 <= VP_DYN_ALLOC_MAX);
+  *(uint64_t*)cap = c;
+  char* p = (char*)malloc(VP_DYN_ALLOC_MAX); __CPROVER_assume(p != 0); return p;
+}
 static inline char* vp_memchr(char* a, int c, uint64_t n) { return (char*)memchr(a, c, n); }
 static inline uint32_t vp_ctlz(uint64_t x, int n) { uint32_t c = 0; for (int i = n - 1; i >= 0; i--) { if ((x >> i) & 1) break; c++; } return c; }
 static inline uint32_t vp_cttz(uint64_t x, int n) { uint32_t c = 0; for (int i = 0; i < n; i++) { if ((x >> i) & 1) break; c++; } return c; }
@@ -359,6 +367,8 @@ struct vp_exc_s vp_exc;
 struct vp_exc_s vp_caught[VP_MAXT][VP_CAUGHT_MAX];
 int vp_ncaught[VP_MAXT];
 int vp_throw_count;              /* number of C++ throws executed (evidence / witnesses) */
+/* constructors of the std::logic_error / runtime_error family (libstdc++.so): the message is not modelled */
+static inline void vp_exc_ctor(char* self, char* what) { (void)self; (void)what; }
 static inline char* vp_cxa_allocate_exception(uint64_t n) { char* p = (char*)malloc(n ? n : 1); __CPROVER_assume(p != 0); return p; }
 static inline void vp_cxa_free_exception(char* p) { (void)p; }
 static inline void vp_cxa_throw(char* obj, char* tinfo, char* dtor) {
